@@ -19,13 +19,17 @@ package util
 //@ ensures chunk-bounds: forall(0, len(result), func(k int) bool { return 1 <= len(result[k]) && len(result[k]) <= splitLen })
 //@ ensures all-but-last-full: forall(0, len(result)-1, func(k int) bool { return len(result[k]) == splitLen })
 //@ ensures ends-at-end: len(result) > 0 ==> offsetOf(result[len(result)-1]) + len(result[len(result)-1]) == offsetOf(bytes) + len(bytes)
+//@ ensures within-input: forall(0, len(result), func(k int) bool { return offsetOf(bytes) <= offsetOf(result[k]) && offsetOf(result[k]) + len(result[k]) <= offsetOf(bytes) + len(bytes) })
+//@ ensures fresh-result: fresh(result)
 //@ ensures input-unchanged: forall(0, len(bytes), func(p int) bool { return bytes[p] == old(bytes[p]) })
 //@ loop i: progress: 0 <= i && i < numBytes + splitLen && numBytes == len(bytes) && (len(splitBytes) == 0 ==> i == 0) && (len(splitBytes) > 0 ==> i >= splitLen)
+//@ loop i: fresh-so-far: fresh(splitBytes)
+//@ loop i: done-consecutive: len(splitBytes) == 0 || forall(0, len(splitBytes)-1, func(k int) bool { return offsetOf(splitBytes[k+1]) == offsetOf(splitBytes[k]) + splitLen })
 //@ loop i: done-same-array: len(splitBytes) == 0 || forall(0, len(splitBytes), func(k int) bool { return sameArray(splitBytes[k], bytes) })
 //@ loop i: done-full: len(splitBytes) == 0 || forall(0, len(splitBytes), func(k int) bool { return k+1 < len(splitBytes) ==> len(splitBytes[k]) == splitLen })
-//@ loop i: done-consecutive: len(splitBytes) == 0 || forall(0, len(splitBytes), func(k int) bool { return k+1 < len(splitBytes) ==> offsetOf(splitBytes[k+1]) == offsetOf(splitBytes[k]) + len(splitBytes[k]) })
 //@ loop i: done-first: len(splitBytes) > 0 ==> offsetOf(splitBytes[0]) == offsetOf(bytes)
 //@ loop i: done-bounds: len(splitBytes) == 0 || forall(0, len(splitBytes), func(k int) bool { return 1 <= len(splitBytes[k]) && len(splitBytes[k]) <= splitLen })
+//@ loop i: done-within: len(splitBytes) == 0 || forall(0, len(splitBytes), func(k int) bool { return offsetOf(bytes) <= offsetOf(splitBytes[k]) && offsetOf(splitBytes[k]) + len(splitBytes[k]) <= offsetOf(bytes) + numBytes })
 //@ loop i: done-last: len(splitBytes) > 0 ==> offsetOf(splitBytes[len(splitBytes)-1]) + len(splitBytes[len(splitBytes)-1]) == offsetOf(bytes) + min(i, numBytes)
 //@     && len(splitBytes[len(splitBytes)-1]) == min(i, numBytes) - (i - splitLen)
 //@ end
